@@ -153,3 +153,10 @@ package generator
 //@     assert[C12] @samepackage arg2 == pkgname
 //@   call makeFile#7:
 //@     assert[C12] @samepackage arg2 == pkgname
+
+// Determinism (in part): the functions that decide the content of the emitted files, and
+// the group registry they read, never iterate over a Go map.
+//@ rule[C12] ordered-iteration: (*Generator).prepare, (*Generator).grabGroups, (*Generator).makeHeader, (*Generator).makeTrailer,
+//@   (*Generator).makeComponent, (*Generator).makeMessage, (*Generator).makeGroupConstructor, (*Generator).makeFieldTypes,
+//@   (*Generator).makeEnum, (*Generator).makeArg, (*Generator).makeSetterCall, (*Generator).makeSetterGetterField,
+//@   (*Generator).makeCallConstructor, (*Generator).makeFile
